@@ -16,6 +16,11 @@ sessions (interpreter processes); every session builds all its `Memory` objects 
   damage w kind  func_code.py of w's location is deleted or truncated (empty, inside the `# first line:` header, header without
                  number, after the header, inside a multi-byte character, one byte short, two thirds) — between sessions and between calls
   fresh          the session ends; the next one starts on the same cache directories
+  call / check / clearfn … fault=<open|write>:<errno>   the operation runs while the NEXT open(func_code.py, 'wb') of the store backend
+                 raises OSError(errno) / succeeds and the write after it raises (one-shot, armed for this operation only; the writes
+                 of the results are not concerned); the injected OSError may reach the caller — a value that is returned must be right
+A case may carry `enc`: the session programs are then written in that DECLARED source encoding (PEP 263 cookie on line 1 or 2, or a
+UTF-8 BOM) and the versions differ only in characters outside ASCII (a literal, an identifier, the docstring; three scripts).
 Every session is a GENERATED PROGRAM — one Python file, rewritten for each session ("edited between sessions") — run in its own
 interpreter: as a script (`__main__` functions), as an imported module (module-level functions), with the defs nested in a
 factory function (nested functions), or with lambdas.  Redefinition under the same name in one session is literally
@@ -26,7 +31,9 @@ out of / into a loop), comment only, docstring only, a blank line, trailing whit
 reordered statements (with and without effect); the same text also appears at other line numbers.  What a version computes is
 obtained by running its plain text, never written down by hand.
 
-Three streams: `main` — one location, one Memory object (the histories this check always ran); `multi` — 2..3 directories and / or
+Streams `fault` (write faults on first use, after an edit, after a damaged file, in clear; then the function is edited and every
+cached argument called) and `enc` (declared source encodings) use the same machinery; `_source_stream` checks the layer below
+`_text_stream` in-process (`get_func_code` on files in declared encodings).  Three older streams: `main` — one location, one Memory object (the histories this check always ran); `multi` — 2..3 directories and / or
 several Memory objects on one directory, the same function object cached at several locations, `Memory.clear()` and faults at one of
 them; `alias` — one directory under two spellings (F46, a known finding of the tree as it is).
 
@@ -80,12 +87,25 @@ REQUIRED_THEOREMS = [
     "C12.torn_same_only_for_prefix",
     "C12.torn_never_untracked",
     "C12.torn_prefix_version_witness",
+    "C12.value_from_own_version_with_write_faults",
+    "C12.entries_only_beside_their_code",
+    "C12.write_fault_raises_or_is_plain",
+    "C12.swallowed_write_error_counterexample",
+    "C12.swallowed_write_error_entries_without_code",
+    "C12.swallowed_write_error_value_from_own_version_false",
+    "C12.fixed_on_the_write_fault_witnesses",
 ]
 TRUSTED_EXTRA = [
     "text layer of func_code.py (JoblibModel.FuncCodeText): texts are code points; UTF-8 is a parameter (a byte prefix decodes to a "
     "code-point prefix or raises UnicodeDecodeError, a ValueError); int() is modelled for ASCII fields up to 4000 characters (the "
     "model abstains on non-ASCII digits / white space, counted in the evidence as text:model-abstains); what a torn file means for "
     "the cache (clear and rewrite) is the history model's `damage` operation",
+    "write faults (JoblibModel.FuncCodeFault): one-shot faults on open(func_code.py, 'wb') and on the write after it, injected through the "
+    "store backend's _open_item hook; a failed write leaves no file (open) or an empty file (write: a partially written one is the "
+    "`damage` operation); faults on the directory creation, on the result files and on reads are not modelled",
+    "modelled, not verified: the text of a function is what Python compiled from the file's bytes (PEP 263 cookie / BOM): the model's "
+    "`Src` is that text; checked on the implementation by the `enc` histories and the source-text stream (latin / cyrillic / CJK scripts "
+    "in 13 codecs), not derived in Lean (no model of the codecs)",
     "modelled, not verified: a source text determines the function's behaviour (closures over differing captured values, differing "
     "defaults at equal text and lambdas sharing a line are outside the domain of the property); func_inspect.get_func_code returns "
     "the text of the def block (validated by the correspondence for module-level, nested, __main__ and lambda definitions, and after "
@@ -108,7 +128,9 @@ RULE = ("histories of 3..18 operations over 1..3 sessions (interpreter processes
         "trailing whitespace, default argument, renamed local, reordered statements), up to 4 live function objects and 2 extra "
         "wrappers per session, arguments 0..2; definition styles: module-level (imported module), nested def, __main__ script, lambda; "
         "code-object swaps there and back, check_call_in_cache, MemorizedFunc.clear, Memory.clear of one location, func_code.py of one "
-        "location deleted / truncated at 8 boundary-biased places; non-trivial = a call step; distinct by (style, versions seen so far, "
+        "location deleted / truncated at 8 boundary-biased places; transient write faults (open / write of func_code.py, 7 errno values) on "
+        "calls, checks and clears; source files in 13 declared encodings (cookie on line 1 / 2 in 3 spellings, UTF-8 BOM) with versions that "
+        "differ only in non-ASCII characters of a literal / an identifier / the docstring; non-trivial = a call step; distinct by (style, versions seen so far, "
         "versions live in the session, the caller's version and argument, whose text is stored at the caller's location, which arguments "
         "are cached under it there, swapped?, damaged?, executed?; with several locations also: the location, whose text the OTHER "
         "locations hold, at how many locations the caller's function object is wrapped)")
@@ -169,6 +191,36 @@ LAMBDAS = {
     24: ("lambda-whitespace", ["f = lambda x: (N.append(0), ( 'é', 1, x ))[1]"]),
 }
 NO_SWAP = {9}  # defaults live on the function object, not on the code object
+
+# ---- versions whose texts differ ONLY in characters outside ASCII (a string literal, an identifier, the docstring), per script; the
+# module file is written in a declared source encoding (PEP 263 cookie on line 1 or 2, or a UTF-8 BOM) that covers the script
+SCRIPTS = {
+    "latin": (30, "\u00e9\u00e8\u00ea\u00e0\u00fc\u00f1", ["latin-1", "cp1252", "iso-8859-15", "utf-8"]),
+    "cyrillic": (40, "\u0416\u042f\u044e\u0434\u0444\u0449", ["koi8-r", "cp1251", "iso-8859-5", "utf-8"]),
+    "cjk": (50, "\u4e2d\u6587\u5b57\u65e5\u672c\u8a9e", ["big5", "gbk", "shift_jis", "euc-jp", "utf-8"]),
+}
+
+
+def _enc_lines(lit, ident, doc, extra=""):
+    return ["def f(x, y=1):", '    """%s doc"""' % doc, "    w%s = 'caf%s'%s" % (ident, lit, extra), "    N.append(0)",
+            "    return (w%s, sorted(_k for _k in locals() if _k.startswith('w')), x, y)" % ident]
+
+
+ENCV = {}
+for _name, (_base, _chars, _codecs) in SCRIPTS.items():
+    _c1, _c2, _c3 = _chars[0], _chars[1], _chars[2]
+    ENCV[_base + 1] = (_name + ":base", _enc_lines(_c1, _c1, _c1))
+    ENCV[_base + 2] = (_name + ":non-ascii-char-of-a-literal", _enc_lines(_c2, _c1, _c1))
+    ENCV[_base + 3] = (_name + ":non-ascii-char-of-an-identifier", _enc_lines(_c1, _c2, _c1))
+    ENCV[_base + 4] = (_name + ":non-ascii-chars-of-both", _enc_lines(_c3, _c3, _c1))
+    ENCV[_base + 5] = (_name + ":ascii-edit-in-a-non-ascii-line", _enc_lines(_c1, _c1, _c1, " + '!'"))
+    ENCV[_base + 6] = (_name + ":non-ascii-char-of-the-docstring", _enc_lines(_c1, _c1, _c2))
+    ENCV[_base + 7] = (_name + ":another-non-ascii-char-of-the-literal", _enc_lines(_c3, _c1, _c1))
+COOKIES = ["# -*- coding: %s -*-", "# coding=%s", "# vim: set fileencoding=%s :"]
+
+
+def version_name(k):
+    return (VERSIONS.get(k) or LAMBDAS.get(k) or ENCV[k])[0]
 # groups of versions worth meeting in one history
 GROUPS = [[1, 2], [1, 3], [1, 4], [1, 5], [4, 5, 1], [1, 6, 7], [1, 8, 13], [1, 9], [1, 10], [1, 11, 12], [2, 3, 11], [4, 11], [1, 2, 4, 5]]
 LGROUPS = [[21, 22], [21, 23], [21, 24], [21, 22, 23, 24]]
@@ -177,7 +229,7 @@ _PLAIN = {}
 
 
 def version_lines(k):
-    return (VERSIONS.get(k) or LAMBDAS[k])[1]
+    return (VERSIONS.get(k) or LAMBDAS.get(k) or ENCV[k])[1]
 
 
 def plain(k, a):
@@ -218,6 +270,46 @@ def _classify(b):
         except ValueError:
             return 'unreadable'
     return 'other'
+
+_fault = dict(kind=None, fired=False)
+
+def _cls(e):
+    return 'OSError' if isinstance(e, OSError) else type(e).__name__
+
+class _FailingFile:
+    def __init__(self, f, no):
+        self._f, self._no = f, no
+    def __enter__(self):
+        return self
+    def __exit__(self, *a):
+        self._f.close()
+        return False
+    def write(self, b):
+        raise OSError(self._no, os.strerror(self._no))
+    def close(self):
+        self._f.close()
+
+def _flaky_open(f, mode='r', *a, **k):
+    if _fault['kind'] and os.path.basename(str(f)) == 'func_code.py' and 'w' in mode:
+        (at, name), _fault['kind'], _fault['fired'] = _fault['kind'], None, True
+        import errno
+        no = getattr(errno, name)
+        if at == 'open':
+            raise OSError(no, os.strerror(no), str(f))
+        return _FailingFile(open(f, mode, *a, **k), no)
+    return open(f, mode, *a, **k)
+
+def _arm(at, name):
+    """The next open(func_code.py, 'wb') of the store backend fails (at == 'open') / succeeds and its write fails."""
+    from joblib._store_backends import FileSystemStoreBackend
+    _fault.update(kind=(at, name), fired=False)
+    FileSystemStoreBackend._open_item = staticmethod(_flaky_open)
+
+def _disarm():
+    from joblib._store_backends import FileSystemStoreBackend
+    FileSystemStoreBackend._open_item = staticmethod(open)
+    _fault['kind'] = None
+    return 'fired' if _fault['fired'] else 'unfired'
 
 def _damage(cf, kind):
     p = os.path.join(cf.store_backend.location, cf.func_id, 'func_code.py')
@@ -269,9 +361,12 @@ def mem_path(workdir, mem):
     raise core.InfraError(f"unknown spelling {sp}")
 
 
-def program(style, paths, result, ops, pad=0):
+def program(style, paths, result, ops, pad=0, enc=None):
     """`pad` lines (and, when odd, another function) are inserted ABOVE everything: the same definitions at other line numbers."""
     src = [f"# line {n} inserted above" for n in range(pad)] + (["def _inserted_above(x):", "    return x", ""] if pad % 2 else [])
+    if enc and enc.get("cookie") is not None:
+        line = COOKIES[enc["cookie"]] % enc["codec"]
+        src = (["#!/usr/bin/env python", line] if enc.get("cookie_line") == 2 else [line]) + src
     src += (PRELUDE % (list(paths),)).split("\n")
     for op in ops:
         o = op.get("o")
@@ -282,6 +377,13 @@ def program(style, paths, result, ops, pad=0):
             src += [f"c_{w} = _mems[{op.get('m', 0)}].cache(f_{o})", "_out.append(['ok'])", ""]
         elif op["op"] == "swap":
             src += [f"f_{o}.__code__ = k_{op['p']}", "_out.append(['ok'])", ""]
+        elif op["op"] in ("call", "check", "clearfn") and op.get("fault"):
+            at, name = op["fault"].split(":")
+            body = {"call": [f"    _v = c_{w}({op.get('a')})", "    _out.append(['val', json.loads(json.dumps(_v)), len(N) > _n])"],
+                    "check": [f"    _out.append(['flag', bool(c_{w}.check_call_in_cache({op.get('a')}))])"],
+                    "clearfn": [f"    c_{w}.clear(warn=False)", "    _out.append(['ok'])"]}[op["op"]]
+            src += [f"_arm({at!r}, {name!r})", "_n = len(N)", "try:"] + body + [
+                "except Exception as _e:", "    _out.append(['raise', _cls(_e)])", "finally:", "    _out[-1].append(_disarm())", ""]
         elif op["op"] == "call":
             src += [
                 "_n = len(N)",
@@ -338,9 +440,11 @@ def run_case(case, workdir):
     env["VERIF_REPO"] = str(core.REPO)
     env.pop("PYTHONPATH", None)
     for si, ops in enumerate(sessions_of(case)):
-        with open(path, "w", encoding="utf-8") as f:
+        enc = case.get("enc")
+        with open(path, "wb") as f:
             pads = case.get("pads") or [0]
-            f.write(program(style, paths, result, ops, pads[min(si, len(pads) - 1)]))
+            text = program(style, paths, result, ops, pads[min(si, len(pads) - 1)], enc)
+            f.write((b"\xef\xbb\xbf" if enc and enc.get("bom") else b"") + text.encode(enc["codec"] if enc else "utf-8"))
         shutil.rmtree(os.path.join(workdir, "__pycache__"), ignore_errors=True)
         if os.path.exists(result):
             os.remove(result)
@@ -368,7 +472,7 @@ def akey(defver, a):
 
 def model_lines(case, recs, cfg):
     """Request lines; None for steps that are no model operation (damage of an absent / intact file)."""
-    lines = ["reset " + " ".join(str(b) for b in cfg)]
+    lines = ["reset " + " ".join(str(b) for b in cfg)]  # f10 f38 wkl f46 wfr
     idx = []
     ver = {}
     wobj = {}
@@ -406,6 +510,8 @@ def model_lines(case, recs, cfg):
                 ln = f"damage {wmem[op['w']]['dir']} {cls}"
         else:
             ln = k
+        if ln is not None and op.get("fault"):
+            ln = f"fault {op['fault'].split(':')[0]} {ln}"
         idx.append(None if ln is None else len(lines))
         if ln is not None:
             lines.append(ln)
@@ -420,6 +526,8 @@ def canon_model(rep):
         return ["flag", t[1] == "1"]
     if rep == "ok":
         return ["ok"]
+    if rep == "raised":
+        return ["raise", "OSError"]
     return [rep]
 
 
@@ -435,10 +543,23 @@ class _DirState:
         self.stored_any = False  # a call completed there since the last clear: the directory may hold entries
         # func_code.py damaged and not certainly rewritten yet; a fresh process (no in-memory shortcut) rewrites it
         self.dirty = self.healable = False
+        self.faulted = False  # a write of func_code.py failed there since the last clear
 
     def cleared(self, owner):
         self.owner, self.valid = owner, set()
-        self.deleted = self.damaged = self.dirty = self.healable = self.stored_any = False
+        self.deleted = self.damaged = self.dirty = self.healable = self.stored_any = self.faulted = False
+
+    def write_failed(self):
+        """The write of func_code.py was attempted (so: the directory had no func_code.py, or was being cleared) and failed: what
+        the file holds now is unknown to the oracle; no hit is expected until the text is certainly written again."""
+        self.owner, self.valid = None, set()
+        self.faulted = True
+
+
+def enc_class(enc):
+    if enc["codec"].replace("-", "").lower() == "utf8":
+        return "utf8-bom" if enc.get("bom") else "utf8-cookie"
+    return "declared-non-utf8"
 
 
 def judge(case, recs, res):
@@ -493,8 +614,16 @@ def judge(case, recs, res):
             continue
         o = wobj[op["w"]]
         mine = cur[o]
+        fault = op.get("fault")
+        fired = bool(fault) and out[-1] == "fired"
+        if fault:
+            out = out[:-1]
+            res.count("write-fault:" + fault.split(":")[0] + (":fired" if fired else ":not-fired") + (":raised" if out[0] == "raise" else ""))
+            if out[0] == "raise" and not (fired and out[1] == "OSError"):
+                res.fail(k + "-raises:" + case["style"], ctx, out)  # not the injected error
         if k == "clearfn":
-            ds.cleared(mine)
+            ds.cleared(None if fired else mine)
+            ds.faulted = fired
             continue
         if aliased:
             tag = case["style"] + ":aliased-location"
@@ -502,6 +631,10 @@ def judge(case, recs, res):
             tag = case["style"] + (":code-swap" if o in swapped else ":redefined-in-session" if len(session_sources) > 1 else "")
             if several:
                 tag += ":several-locations"
+        if k == "check" and fired:
+            ds.write_failed()
+            prev_check = None
+            continue
         if k == "check":
             if ds.dirty and ds.healable:
                 ds.dirty = ds.healable = False
@@ -514,7 +647,7 @@ def judge(case, recs, res):
         # call
         owner = ds.owner
         res.count("call:" + ("stored-text-is-own" if owner == mine else "stored-text-is-other" if owner is not None else "no-known-stored-text"))
-        res.count("caller-version=" + (VERSIONS.get(mine) or LAMBDAS[mine])[0])
+        res.count("caller-version=" + version_name(mine))
         others = sorted(("own" if x.owner == mine else "other" if x.owner is not None else "none") for d2, x in dirs.items() if d2 != wdir[op["w"]])
         nwrapped = len({wdir[w2] for w2, o2 in wobj.items() if o2 == o})
         if several:
@@ -527,12 +660,15 @@ def judge(case, recs, res):
         ak = akey(defver[o], op["a"])
         expect_hit = owner == mine and ak in ds.valid
         if out[0] != "val":
-            res.fail("call-raises:" + case["style"], ctx, out)
+            if not fired:
+                res.fail("call-raises:" + case["style"], ctx, out)
         else:
             want = plain(mine, op["a"])
             if out[1] != want:
                 sig = ("stale-after-func-code-deleted" if ds.deleted else
-                       "wrong-version-value:" + tag + (":after-damage" if ds.damaged and not aliased else ""))
+                       "wrong-version-value:" + tag + (":after-damage" if ds.damaged and not aliased else "")
+                       + (":after-func-code-write-fault" if ds.faulted else "")
+                       + (":source-encoding=" + enc_class(case["enc"]) if case.get("enc") else ""))
                 res.fail(sig, ctx, dict(returned=out[1], own_version=mine, own_version_returns=want, stored_text_last_written_for=owner,
                                         location=wdir[op["w"]]))
             elif expect_hit and out[2]:
@@ -548,7 +684,15 @@ def judge(case, recs, res):
                    o in swapped, ds.damaged, out[2]]
             if several:
                 key += [wdir[op["w"]], others, nwrapped, aliased]
+            if fault or ds.faulted:
+                key += [fault, fired, ds.faulted]
+            if case.get("enc"):
+                key += [enc_class(case["enc"]), case["enc"]["codec"]]
             res.nontrivial.add(json.dumps(key))
+        if fired:
+            ds.write_failed()
+            prev_check = None
+            continue
         if ds.dirty and ds.healable:
             ds.dirty = ds.healable = False
         if ds.owner != mine:
@@ -659,6 +803,106 @@ def swap_history(rng, pool):
         for _ in range(rng.randint(1, 2)):
             ops.append(C(rng.choice(ws), rng.choice([a, a, 2])))
     return ops
+
+
+WRITE_FAULTS = ["open:EMFILE", "open:ENOSPC", "open:EACCES", "open:ENFILE", "write:ENOSPC", "write:EIO", "write:EDQUOT"]
+
+
+def write_fault_history(rng, pool):
+    """A transient fault on the write of func_code.py — on first use, on the first call of an edited definition (after the wipe), after
+    a damaged file, or in MemorizedFunc.clear — while the writes of the results succeed; the application repeats the call; further
+    arguments are cached; then the function is EDITED and the next session calls every cached argument, in any order."""
+    D, C = (lambda o, k: dict(op="def", o=o, k=k)), (lambda w, a: dict(op="call", w=w, a=a))
+    F = dict(op="fresh")
+    v0, v1 = rng.choice(pool), rng.choice(pool)
+    v2 = rng.choice([v for v in pool if v != v1] or pool)
+    args = rng.sample([0, 1, 2], rng.choice([2, 3, 3]))
+    fault = rng.choice(WRITE_FAULTS)
+    where = rng.choice(["first-use", "first-use", "after-edit", "after-damage", "clearfn", "check"])
+    ops, o = [], 1
+    if where in ("after-edit", "after-damage"):
+        ops += [D(o, v0 if where == "after-edit" else v1)] + [C(o, a) for a in args]
+        if where == "after-damage":
+            ops.append(dict(op="damage", w=o, kind=rng.choice([k for k in DAMAGES if k != "delete"])))
+        ops.append(F)
+        o += 1
+    ops.append(D(o, v1))
+    if where == "clearfn":
+        ops += [C(o, args[0]), dict(op="clearfn", w=o, fault=fault)]
+    elif where == "check":
+        ops += [dict(op="check", w=o, a=args[0], fault=fault)]
+    else:
+        ops += [dict(C(o, args[0]), fault=fault)]
+    if rng.random() < 0.3:
+        ops += [dict(C(o, args[0]), fault=rng.choice(WRITE_FAULTS))]  # the repetition meets a fault too
+    gave_up = rng.random() >= 0.65  # the application gave up on the OSError: the session ends here
+    if not gave_up:
+        ops += [C(o, a) for a in args]
+    if rng.random() < 0.3:
+        ops += [dict(C(o, rng.choice(args)), fault=rng.choice(WRITE_FAULTS))]  # (mostly) no write to be done: does not fire
+    ops += [F, D(o + 1, v2)]
+    order = list(args)
+    rng.shuffle(order)
+    if gave_up and rng.random() < 0.7:
+        order = [a for a in order if a != args[0]] + [args[0]]  # the argument of the faulted call is not the first one called
+    ops += [C(o + 1, a) for a in order] + [C(o + 1, order[0])]
+    if rng.random() < 0.4:
+        ops += [F, D(o + 2, v1)] + [C(o + 2, a) for a in args]
+    return ops
+
+
+def gen_fault_case(rng, idx, thorough, label):
+    style = rng.choice(["module", "module", "nested", "main", "main", "lambda"])
+    pool = list(rng.choice(LGROUPS if style == "lambda" else GROUPS))
+    pads = [rng.choice([0, 1, 2, 5]) for _ in range(4)]
+    if rng.random() < 0.7:
+        return dict(label=f"{label}{idx}", style=style, ops=write_fault_history(rng, pool), pads=pads)
+    # a walk (one or two locations) in which calls, checks and clears meet write faults
+    mems = [dict(dir=0, sp=0)] if rng.random() < 0.6 else [dict(dir=0, sp=0), dict(dir=1, sp=0)]
+    ops = walk_history(rng, style, pool, mems, rng.randint(6, 24 if thorough else 18))
+    for op in ops:
+        if op["op"] in ("call", "check", "clearfn") and rng.random() < 0.3:
+            op["fault"] = rng.choice(WRITE_FAULTS)
+    case = dict(label=f"{label}{idx}", style=style, ops=ops, pads=pads)
+    if len(mems) > 1:
+        case["mems"] = mems
+    return case
+
+
+def gen_enc(rng):
+    """A script, a source encoding that covers it, and how it is declared."""
+    script = rng.choice(sorted(SCRIPTS))
+    base, _chars, codecs = SCRIPTS[script]
+    codec = rng.choice(codecs + [c for c in codecs if c != "utf-8"])  # mostly not UTF-8
+    if codec == "utf-8":
+        bom = rng.random() < 0.6
+        cookie = None if (bom and rng.random() < 0.6) else rng.randrange(len(COOKIES))
+        if not bom and cookie is None:
+            cookie = 0
+    else:
+        bom, cookie = False, rng.randrange(len(COOKIES))
+    return base, dict(codec=codec, cookie=cookie, cookie_line=rng.choice([1, 1, 2]), bom=bom)
+
+
+def gen_enc_case(rng, idx, thorough, label):
+    """The function lives in a file whose encoding is DECLARED (cookie / BOM); its versions differ only in characters outside ASCII."""
+    base, enc = gen_enc(rng)
+    style = rng.choice(["module", "module", "nested", "main"])
+    pool = rng.sample(range(base + 1, base + 8), rng.choice([2, 3, 4]))
+    pads = [rng.choice([0, 1, 2, 5]) for _ in range(4)]
+    D, C = (lambda o, k: dict(op="def", o=o, k=k)), (lambda w, a: dict(op="call", w=w, a=a))
+    if rng.random() < 0.65:
+        # edited between sessions (and perhaps back); every cached argument is called again, the first one twice
+        args = rng.sample([0, 1, 2], rng.choice([1, 2, 3]))
+        seq = [pool[0], pool[1]] + [rng.choice(pool) for _ in range(rng.choice([0, 1, 1]))]
+        ops = []
+        for n, v in enumerate(seq):
+            order = list(args)
+            rng.shuffle(order)
+            ops += ([dict(op="fresh")] if ops else []) + [D(n + 1, v)] + [C(n + 1, a) for a in order] + [C(n + 1, order[0])]
+    else:
+        ops = walk_history(rng, style, pool, [dict(dir=0, sp=0)], rng.randint(5, 18))
+    return dict(label=f"{label}{idx}", style=style, ops=ops, pads=pads, enc=enc)
 
 
 def _mems_multi(rng):
@@ -812,7 +1056,8 @@ def gen_alias_case(rng, idx, thorough, label):
     return dict(label=f"{label}{idx}", style=style, mems=mems, ops=ops, pads=[rng.choice([0, 1, 2, 5]) for _ in range(4)])
 
 
-GENERATORS = {"main": None, "search": None, "multi": gen_multi_case, "search-multi": gen_multi_case, "alias": gen_alias_case}
+GENERATORS = {"main": None, "search": None, "multi": gen_multi_case, "search-multi": gen_multi_case, "alias": gen_alias_case,
+              "fault": gen_fault_case, "search-fault": gen_fault_case, "enc": gen_enc_case, "search-enc": gen_enc_case}
 
 
 def corpus_cases():
@@ -883,6 +1128,32 @@ def corpus_cases():
         for sp in (1, 2, 3):
             out.append(dict(label=f"corpus-aliased-location-{sp}-{style}", style=style, mems=[dict(dir=0, sp=0), dict(dir=0, sp=sp)],
                             ops=[Dm(1, 1, 0), Dm(2, 2, 1), C(1, 1), C(2, 1), C(1, 1), C(2, 1), C(1, 1)]))
+    # a transient fault on the write of func_code.py (open / write), on first use and on the first call after an edit; the call is
+    # repeated, two more arguments are cached; the function is edited; the next session calls all of them
+    for style in STYLES:
+        a, b = (21, 22) if style == "lambda" else (1, 2)
+        for fault in ("open:EMFILE", "write:ENOSPC"):
+            out.append(dict(label=f"corpus-write-fault-first-use-{fault.split(':')[0]}-{style}", style=style,
+                            ops=[D(1, a), dict(C(1, 0), fault=fault), C(1, 0), C(1, 1), C(1, 2), F, D(2, b), C(2, 0), C(2, 1), C(2, 2)]))
+        out.append(dict(label="corpus-write-fault-after-edit-" + style, style=style,
+                        ops=[D(1, b), C(1, 0), C(1, 1), F, D(2, a), dict(C(2, 1), fault="open:ENOSPC"), C(2, 1), C(2, 0), C(2, 2),
+                             dict(op="clearfn", w=2, fault="write:EIO"), C(2, 0), dict(C(2, 0), fault="open:EACCES"), F, D(3, b), C(3, 2),
+                             C(3, 0), C(3, 1)]))
+    for style in ("module", "main"):
+        # ... and the application gives up on the OSError: whatever the faulted call left must not be served to the edited function
+        out.append(dict(label="corpus-write-fault-gave-up-first-use-" + style, style=style,
+                        ops=[D(1, 1), dict(C(1, 0), fault="open:EMFILE"), F, D(2, 2), C(2, 1), C(2, 0), C(2, 0)]))
+        out.append(dict(label="corpus-write-fault-gave-up-after-edit-" + style, style=style,
+                        ops=[D(1, 2), C(1, 0), C(1, 1), F, D(2, 1), dict(C(2, 0), fault="open:ENOSPC"), F, D(3, 2), C(3, 1), C(3, 0), C(3, 0)]))
+    # the source file in a declared encoding; the edit changes one character outside ASCII
+    for codec, base in (("latin-1", 30), ("cp1252", 30), ("koi8-r", 40), ("big5", 50), ("shift_jis", 50), ("utf-8", 30)):
+        style = "main" if codec in ("cp1252", "shift_jis") else "module"
+        out.append(dict(label=f"corpus-source-encoding-{codec}-{style}", style=style, pads=[0, 2, 0, 1],
+                        enc=dict(codec=codec, cookie=0, cookie_line=1, bom=False),
+                        ops=[D(1, base + 1), C(1, 0), C(1, 1), F, D(2, base + 1), C(2, 1), D(12, base + 6), C(12, 1), F, D(3, base + 2), C(3, 0),
+                             C(3, 1), F, D(4, base + 3), C(4, 1), C(4, 0)]))
+    out.append(dict(label="corpus-source-encoding-utf8-bom", style="module", enc=dict(codec="utf-8", cookie=None, cookie_line=1, bom=True),
+                    ops=[D(1, 31), C(1, 0), C(1, 1), F, D(2, 32), C(2, 0), C(2, 1), F, D(3, 32), C(3, 0)]))
     # every kind of edit between sessions, each followed by calls with all cached arguments
     ops = []
     for n, v in enumerate(sorted(VERSIONS)):
@@ -907,8 +1178,9 @@ _CFG = {}
 
 
 def impl_cfg(scratch):
-    """(f10, f38, wkl, f46): what the tree under test does on four probe histories, probed once.  f10 / f38 / f46: 1 = the repaired
-    behaviour; wkl: 1 = the in-memory shortcut of one location does not answer for another (the writer key contains the location)."""
+    """(f10, f38, wkl, f46, wfr): what the tree under test does on five probe histories, probed once.  f10 / f38 / f46: 1 = the repaired
+    behaviour; wkl: 1 = the in-memory shortcut of one location does not answer for another (the writer key contains the location);
+    wfr: 1 = a failing write of func_code.py raises to the caller (the code as it is), 0 = it is swallowed."""
     key = str(core.REPO)
     if key not in _CFG:
         D, C = (lambda o, k, m=0: dict(op="def", o=o, k=k, m=m)), (lambda w, a: dict(op="call", w=w, a=a))
@@ -924,8 +1196,10 @@ def impl_cfg(scratch):
         rkl = probe("probe-writer-key", [D(1, 1, 1), C(1, 1), dict(op="fresh"), D(2, 2, 0), dict(op="wrap", w=102, o=2, m=1), C(2, 1), C(102, 1)],
                     [dict(dir=0, sp=0), dict(dir=1, sp=0)])
         r46 = probe("probe46", [D(1, 1, 0), D(2, 2, 1), C(1, 1), C(2, 1), C(1, 1)], [dict(dir=0, sp=0), dict(dir=0, sp=1)])
+        rwf = probe("probe-write-fault", [D(1, 1), dict(C(1, 0), fault="open:EMFILE")])
         _CFG[key] = (int(r10[-1][:2] == ["val", plain(1, 1)]), int(r38[-1][:2] == ["val", plain(1, 0)]),
-                     int(rkl[-1][:2] == ["val", plain(2, 1)]), int(r46[-1][:2] == ["val", plain(1, 1)]))
+                     int(rkl[-1][:2] == ["val", plain(2, 1)]), int(r46[-1][:2] == ["val", plain(1, 1)]),
+                     int(rwf[-1][0] == "raise"))
     return _CFG[key]
 
 
@@ -935,7 +1209,8 @@ def run_one(case, workdir, driver, res, cfg):
     replies = driver.run(lines)
     for j, (op, out, w) in enumerate(zip(case["ops"], recs, idx)):
         res.evaluations += 1
-        res.count("op=" + op["op"] + (":" + out[1] if op["op"] == "damage" and out and out[0] == "damage" else ""))
+        res.count("op=" + op["op"] + (":" + out[1] if op["op"] == "damage" and out and out[0] == "damage" else "")
+                  + (":write-fault-" + out[-1] + ("-raised" if out[0] == "raise" else "") if op.get("fault") else ""))
         if w is None:
             continue
         rep = replies[w]
@@ -943,11 +1218,13 @@ def run_one(case, workdir, driver, res, cfg):
         if rep == "bad-op":
             raise core.InfraError(f"driver rejected {lines[w]!r}")
         m = canon_model(rep)
-        o = ["ok"] if op["op"] == "damage" else out
+        o = ["ok"] if op["op"] == "damage" else out[:-1] if op.get("fault") else out
         if m != o:
             res.diverge("step", dict(case=case, step=j, op=op, model_cfg=list(cfg)), out, m)
     judge(case, recs, res)
     res.count("style=" + case["style"])
+    if case.get("enc"):
+        res.count("source-encoding=" + enc_class(case["enc"]) + ":" + case["enc"]["codec"])
     res.count("sessions=%d" % len(sessions_of(case)))
     mems = case_mems(case)
     res.count("directories=%d" % len({m["dir"] for m in mems}))
@@ -999,7 +1276,8 @@ def explore(ctx, streams, with_corpus=True):
         in_memory_shortcut="checks the writer of func_code.py (F10 repaired)" if cfg[0] else "_FUNCTION_HASHES only (before F10)",
         func_code_info="records the code object its source was read for (F38 repaired)" if cfg[1] else "keeps the first code object seen (F38)",
         writer_key="names the location" if cfg[2] else "one slot for all locations (answers for a location it never read)",
-        writer_key_spelling="the resolved directory (F46 repaired)" if cfg[3] else "the location string as given (F46: two spellings of one directory = two slots)")
+        writer_key_spelling="the resolved directory (F46 repaired)" if cfg[3] else "the location string as given (F46: two spellings of one directory = two slots)",
+        failing_write_of_func_code="raises to the caller before anything is stored" if cfg[4] else "swallowed: entries get stored without func_code.py")
     driver = ctx.driver()
     workers = min(16, os.cpu_count() or 1)
     if with_corpus:
@@ -1017,9 +1295,10 @@ def explore(ctx, streams, with_corpus=True):
     with concurrent.futures.ProcessPoolExecutor(max_workers=workers) as ex:
         for part in ex.map(_worker, jobs):
             _merge(res, part)
-    bad = ["", "call 1", "def 1 1", "def 1 1 2", "def 1 1 1", "def 1 1 2 0", "reset", "reset 1", "reset 1 1", "reset 2 1 1 0", "swap 1 2", "call x 1",
+    bad = ["", "call 1", "def 1 1", "def 1 1 2", "def 1 1 1", "def 1 1 2 0", "reset", "reset 1", "reset 1 1", "reset 2 1 1 0", "reset 1 1 1 0",
+           "reset 1 1 1 0 2", "fault", "fault open", "fault close call 1 1", "fault open call 1", "fault write fault write call 1 1", "swap 1 2", "call x 1",
            "fresh now", "damage", "damage torn", "damage other", "damage 0 torn", "wrap 1", "wrap 1 1", "wrap 1 1 0", "clearall", "clearall x"]
-    replies = driver.run(["reset 1 1 1 0"] + bad)
+    replies = driver.run(["reset 1 1 1 0 1"] + bad)
     for b, rep in zip(bad, replies[1:]):
         if rep != "bad-op":
             res.diverge("malformed-request", b, "bad-op", rep)
@@ -1223,7 +1502,104 @@ def _text_stream(ctx, res):
         res.notes.append(f"FIRST_LINE_TEXT is now {marker!r}: the text-layer model still has '# first line:' (every comparison of the text stream goes through the real constant, so this shows as divergences there)")
     res.sample(dict(stream="text", requests=lines[:3], answers=out[:3]))
 
+
+# ----------------------------------------------------------------------------- how the source text is obtained
+
+
+def _source_stream(ctx, res):
+    """The layer BELOW the text layer: the text joblib compares must be the text Python compiled.  Module files are written in a
+    declared source encoding (PEP 263 cookie on line 1 or 2, three spellings; UTF-8 with BOM, with and without cookie) with versions of
+    one function that differ only in characters outside ASCII; the functions are compiled from the file's BYTES (in-process) and
+    `func_inspect.get_func_code` is asked for their text.
+    * oracle (no model), exactly what the property needs of that layer: two versions whose compiled texts differ are given different
+      texts (else an edit is invisible: the old values are served), and one version in two files / at two line numbers is given the
+      same text (else unchanged code is recomputed);
+    * correspondence: the comparison `old_func_code == func_code` on what joblib retrieved, against `JoblibModel.FuncCodeText.
+      compareStored` on the texts Python compiled (theorem `intact_same_iff`)."""
+    core.use_repo()
+    from joblib.func_inspect import get_func_code
+    import joblib.memory as jm
+    rng = ctx.rng("source")
+    d = os.path.join(str(ctx.scratch), "sourcetext")
+    os.makedirs(d, exist_ok=True)
+    count = [0]
+
+    def load(k, enc, pad):
+        count[0] += 1
+        path = os.path.join(d, "src%d.py" % count[0])
+        head = []
+        if enc.get("cookie") is not None:
+            line = COOKIES[enc["cookie"]] % enc["codec"]
+            head = ["#!/usr/bin/env python", line] if enc.get("cookie_line") == 2 else [line]
+        text = "\n".join(head + ["# line %d above" % n for n in range(pad)] + ["N = []"] + version_lines(k)) + "\n"
+        raw = (b"\xef\xbb\xbf" if enc.get("bom") else b"") + text.encode(enc["codec"])
+        with open(path, "wb") as f:
+            f.write(raw)
+        ns = {}
+        exec(compile(raw, path, "exec"), ns)  # noqa: S102 - generated text only; bytes: the cookie / BOM decides, as for an import
+        return ns["f"], "\n".join(version_lines(k)) + "\n"
+
+    confs = [(30, dict(codec="latin-1", cookie=0, cookie_line=1, bom=False)), (50, dict(codec="big5", cookie=1, cookie_line=2, bom=False)),
+             (30, dict(codec="utf-8", cookie=None, cookie_line=1, bom=True)), (40, dict(codec="koi8-r", cookie=2, cookie_line=1, bom=False))]
+    while len(confs) < (120 if ctx.thorough else 20):
+        confs.append(gen_enc(rng))
+    lines, meta = [], []
+    for base, enc in confs:
+        ks = list(range(base + 1, base + 8))
+        cls = enc_class(enc)
+        got, true = {}, {}
+        try:
+            for k in ks:
+                f, true[k] = load(k, enc, rng.choice([0, 1, 3]))
+                got[k] = get_func_code(f)
+            f2, _ = load(ks[0], enc, 7)
+            again = get_func_code(f2)
+        except Exception as e:  # noqa: BLE001
+            res.fail("source-text:retrieval-raises:" + cls, dict(kind="source-text", enc=enc), repr(e)[:300])
+            continue
+        res.count("source-text:files", len(ks) + 1)
+        res.count("source-text:" + cls + ":" + enc["codec"])
+        for i, ki in enumerate(ks):
+            res.count("source-text:verbatim" if got[ki][0] == true[ki] else "source-text:not-verbatim")
+            for kj in ks[i + 1:]:
+                res.evaluations += 1
+                if got[ki][0] == got[kj][0]:
+                    res.fail("source-text:edit-invisible:" + cls, dict(kind="source-text", enc=enc, versions=[ki, kj], edit=version_name(kj)),
+                             dict(retrieved=ascii(got[ki][0])[:400], compiled=[ascii(true[ki])[:400], ascii(true[kj])[:400]]))
+                else:
+                    res.nontrivial.add(("source-text", cls, enc["codec"], enc.get("cookie"), enc.get("cookie_line"), ki % 10, kj % 10))
+        if again[0] != got[ks[0]][0]:
+            res.fail("source-text:unchanged-text-differs:" + cls, dict(kind="source-text", enc=enc, versions=[ks[0], ks[0]]),
+                     dict(first=ascii(got[ks[0]][0])[:400], second=ascii(again[0])[:400]))
+        # the comparison of _check_previous_func_code on the retrieved texts against the model's on the compiled texts
+        for ki, kj in [(ks[0], ks[0]), (ks[0], ks[1]), (ks[1], ks[2]), (ks[2], ks[2]), (ks[3], ks[6]), (ks[0], ks[5])]:
+            n = got[ki][2]
+            stored_model = "%s %i\n%s" % (jm.FIRST_LINE_TEXT, n, true[ki])
+            try:
+                impl = "same" if jm.extract_first_line("%s %i\n%s" % (jm.FIRST_LINE_TEXT, n, got[ki][0]))[0] == got[kj][0] else "changed"
+            except ValueError:
+                impl = "unreadable"
+            lines.append("text-compare %d %s %s" % (len(stored_model), _cps(stored_model), _cps(true[kj])))
+            meta.append((dict(kind="source-text", enc=enc, versions=[ki, kj]), impl))
+    out = ctx.driver().run(lines) if lines else []
+    res.traces_validated += 1
+    for (case, impl), ans in zip(meta, out):
+        res.evaluations += 1
+        if ans == "untracked":
+            res.count("text:model-abstains")
+        elif ans != impl:
+            res.diverge("source-text", case, impl, ans)
+        else:
+            res.count("source-text:comparison-agrees:" + ans)
+    shutil.rmtree(d, ignore_errors=True)
+
+
 def run(ctx):
+    if ctx.replay and (ctx.replay.get("case") or {}).get("kind") == "source-text":
+        res = Result()
+        res.rule = "replay: the source-text stream is re-run"
+        _source_stream(ctx, res)
+        return res
     if ctx.replay and (ctx.replay.get("case") or {}).get("kind") == "reload-probe":
         res = Result()
         res.rule = "replay: the reload probe is re-run"
@@ -1243,7 +1619,9 @@ def run(ctx):
             raise core.InfraError("replay file has no history")
         run_one(case, os.path.join(str(ctx.scratch), "replay"), ctx.driver(), res, impl_cfg(ctx.scratch))
         return res
-    res = explore(ctx, [("main", 2500), ("multi", 4000), ("alias", 400)] if ctx.thorough else [("main", 450), ("multi", 260), ("alias", 30)])
+    res = explore(ctx, [("main", 2500), ("multi", 4000), ("alias", 400), ("fault", 700), ("enc", 700)] if ctx.thorough
+                  else [("main", 420), ("multi", 240), ("alias", 30), ("fault", 50), ("enc", 50)])
+    _source_stream(ctx, res)
     _reload_probe(ctx, res)
     _interrupt_probe(ctx, res)
     _text_stream(ctx, res)
@@ -1251,4 +1629,4 @@ def run(ctx):
 
 
 def search(ctx, res):
-    return explore(ctx, [("search", 3000), ("search-multi", 2500)], with_corpus=False)
+    return explore(ctx, [("search", 2600), ("search-multi", 2200), ("search-fault", 500), ("search-enc", 500)], with_corpus=False)
